@@ -117,6 +117,16 @@ impl FromRec for MyMsg {
         MyMsg::Note { text: rec.to_string() }
     }
 }
+impl FromRec for sylvia::cw_std::Binary {
+    fn from_rec(rec: &str) -> Self {
+        sylvia::cw_std::Binary::from(rec.as_bytes())
+    }
+}
+impl FromRec for String {
+    fn from_rec(rec: &str) -> Self {
+        rec.to_string()
+    }
+}
 impl FromRec for EchoA {
     fn from_rec(rec: &str) -> Self {
         EchoA { rec: rec.to_string() }
